@@ -2900,9 +2900,21 @@ def cases(tier, rng):
     r = rng.fork("c15-lik")
     for i in range(sizes["lik"]):
         yield gen_lik(r.fork(i), tier, i)
-    r = rng.fork("c15-likwin")
-    for i in range(sizes["likwin"]):
-        yield gen_likwin(r.fork(i), i)
+    r = rng.fork("c15-fit")
+    for i in range(sizes["fit"]):
+        yield gen_fit(r.fork(i), tier, i)
+    r = rng.fork("c15-constraint")
+    for i in range(sizes["constraint"]):
+        yield gen_constraint(r.fork(i), i)
+    r = rng.fork("c15-extract")
+    for i in range(sizes["extract"]):
+        yield gen_extract(r.fork(i), i)
+    r = rng.fork("c15-extract-seq")
+    for i in range(sizes["extract-seq"]):
+        yield gen_extract_seq(r.fork(i), i)
+    r = rng.fork("c15-validate")
+    for i in range(sizes["validate"]):
+        yield gen_validate(r.fork(i), i)
     # ---- small scope: what is handed to the optimiser, every mask for n <= 2 x amplitude vectors x model kind
     for n, amp_sets, taus in ((1, [["1"], ["1/2"], None], ["1/2"]), (2, [["1/4", "3/4"], ["1/2", "1/4"], ["3/4", "1/2"], None], ["1/2", "4"])):
         for amps in amp_sets:
@@ -2914,6 +2926,11 @@ def cases(tier, rng):
                         full = ([0.3, 0.6] if n == 2 else [0.9]) + ([0.7, 3.0] if n == 2 else [1.1])
                         c["probe"] = [v for v, f in zip(full, assemble_fitted(c)) if f]
                         yield c
+    # (the streams added in round D fork the generator AFTER all earlier streams: forks are drawn in order, so the cases
+    #  of the earlier streams stay what they were for every VERIF_SEED)
+    r = rng.fork("c15-likwin")
+    for i in range(sizes["likwin"]):
+        yield gen_likwin(r.fork(i), i)
     yield from small_scope_fits()
     # ---- small scope: fit_binding_times' own options: every combination of n_components x given/left-out flags on four groups
     kym = [{"n_lines": 6, "line_time": 0.25}, {"n_lines": 5, "line_time": 0.5}]
@@ -2938,21 +2955,6 @@ def cases(tier, rng):
     r = rng.fork("c15-assemble")
     for i in range(sizes["assemble"]):
         yield gen_assemble(r.fork(i), tier, i)
-    r = rng.fork("c15-fit")
-    for i in range(sizes["fit"]):
-        yield gen_fit(r.fork(i), tier, i)
-    r = rng.fork("c15-constraint")
-    for i in range(sizes["constraint"]):
-        yield gen_constraint(r.fork(i), i)
-    r = rng.fork("c15-extract")
-    for i in range(sizes["extract"]):
-        yield gen_extract(r.fork(i), i)
-    r = rng.fork("c15-extract-seq")
-    for i in range(sizes["extract-seq"]):
-        yield gen_extract_seq(r.fork(i), i)
-    r = rng.fork("c15-validate")
-    for i in range(sizes["validate"]):
-        yield gen_validate(r.fork(i), i)
 
 
 def extra_coverage(results):
